@@ -107,6 +107,8 @@ pub fn install(progress_path: &str) {
     unsafe {
         signal(11, on_fault as *const () as usize);
         signal(7, on_fault as *const () as usize);
+        // SIGABRT: the allocator detected heap corruption (an out-of-bounds write that missed the guard pages)
+        signal(6, on_fault as *const () as usize);
     }
 }
 
